@@ -35,6 +35,8 @@ pub mod execkit;
 pub mod c26;
 pub mod c27;
 pub mod c33;
+pub mod c30;
+pub mod c31;
 pub mod util;
 
 pub type RunFn = fn(&mut Ctx);
@@ -72,6 +74,8 @@ pub const REGISTRY: &[(&str, RunFn, ReplayFn)] = &[
     ("C26", c26::run, c26::replay),
     ("C27", c27::run, c27::replay),
     ("C33", c33::run, c33::replay),
+    ("C30", c30::run, c30::replay),
+    ("C31", c31::run, c31::replay),
 ];
 
 pub fn find(id: &str) -> Option<(RunFn, ReplayFn)> {
